@@ -75,7 +75,10 @@ prop(
         "Unitarity (1+U'†)(1+U') = (1+U')(1+U'†) = 1, adj(U) = U†, Hermiticity of U†HU and of every series/product "
         "carrying a hermitian/antihermitian marker are obligations of the E1 certificate of `main`; the Hermitian "
         "half-sum multiplicity table of product_by_order (12 environments x all loop-body paths) and the index form of "
-        "every adjoint fill (hand-written and generated) are decided from series.py / algorithm_parsing.py."),
+        "every adjoint fill (hand-written and generated) are decided from series.py / algorithm_parsing.py."
+        " `U† is the adjoint of U` is a statement about what Dagger does to the values: every module binds Dagger to the adjoint "
+        "(E9.adjoint_binding), and for operator-valued problems NumberOrderedForm's adjoint negates the powers and takes the adjoint "
+        "of every coefficient (E10 linear structure)."),
 )
 
 prop(
@@ -160,7 +163,9 @@ prop(
         "compared, not fixed); (iv) the fermionic crossing sets of _multiply_op are the ones implied by that order; "
         "(ii) per syntactic path of the boson/ladder branch, the shift applied to the old coefficient and to the newly "
         "created number factors equals the table that follows from a f(N) = f(N+1) a and a a† = N+1; _multiply_expr's "
-        "replacement table; (iii) adjoint / add / neg / sub structure. Not decided: from_expr on arbitrary expression "
+        "replacement table; (iii) adjoint / add / neg / sub structure; (v) NumberOperator._eval_power collapses N**k to N only for "
+        "fermion and spin modes and integer k != 0 (grid over operator type x exponent); (vi) memo tables of the arithmetic are keyed "
+        "by everything the cached value reads. Not decided: from_expr on arbitrary expression "
         "trees, non-integer powers, simplification."),
 )
 
@@ -240,7 +245,8 @@ prop(
            # `dense, sparse or symbolic values`: the selection closures have one element-wise branch per value type
            e1b.rule_projection_pairs],
     explanation=(
-        "Narrow claim: operator_to_BlockSeries returns L_i† A R_j (projector families, argument order of every "
+        "Narrow claim: the selection closures have one element-wise branch per value type (dense, scipy.sparse, sympy); "
+        "operator_to_BlockSeries returns L_i† A R_j (projector families, argument order of every "
         "ComplementProjector construction, Hermitian fill), the Taylor recurrence of symbolic input is consistent "
         "(element n = derivative / n!), normalisation layers pass orders through unchanged, keys are normalised "
         "position-wise, every eval is total over the documented value types. Equality of results across formats is a "
@@ -274,7 +280,9 @@ prop(
         "_apply_left denotes P† v, the objects built by _adjoint / conjugate / _transpose (both L = R and L != R) "
         "denote P†, P*, Pᵀ, every cached cross-link stores the operation its attribute names; the instance attributes "
         "the installed SciPy's LinearOperator reads are initialised by __init__; every construction site passes "
-        "(right, left). One obligation per (method, mode) / cache store / base-class attribute."),
+        "(right, left). One obligation per (method, mode) / cache store / base-class attribute."
+        " The slot denotations are computed per path (dense / sparse operand); no function of linalg.py that is called from "
+        "outside the package writes into its operand (inside a scipy composite the operand is shared with the other terms)."),
 )
 
 prop(
